@@ -738,6 +738,36 @@ func (fc *FuncCtx) callFormula(x *ssa.Call) *bddNode {
 		}
 		return fc.A.atom("eq("+sa+","+sb+")", "eq", fc, x, []ssa.Value{va, vb}, sa, sb)
 	}
+	// slices.ContainsFunc(xs, func(x T) bool {...}): "some element of xs satisfies the literal's body"
+	if sc != nil && strings.HasPrefix(sc.String(), "slices.ContainsFunc[") && len(c.Args) == 2 && fc.depth < fc.A.MaxDepth+1 {
+		var cf *ssa.Function
+		var mc *ssa.MakeClosure
+		switch y := c.Args[1].(type) {
+		case *ssa.MakeClosure:
+			mc = y
+			cf, _ = y.Fn.(*ssa.Function)
+		case *ssa.Function:
+			cf = y
+		}
+		if cf != nil && len(cf.Blocks) > 0 && len(cf.Params) == 1 {
+			env := map[ssa.Value]string{cf.Params[0]: fc.AP(c.Args[0]) + "[*]"}
+			for i, fv := range cf.FreeVars {
+				if mc != nil && i < len(mc.Bindings) {
+					env[fv] = fc.AP(mc.Bindings[i])
+				}
+			}
+			pfx := fc.prefix
+			if pfx == "" {
+				pfx = fc.A.P.FnName(fc.Fn) + "/"
+			}
+			sub := fc.A.ctxWith(cf, env, fmt.Sprintf("%s%s@%s/", pfx, cf.Name(), x.Name()), fc.depth+1)
+			if sub.parent == nil {
+				sub.parent, sub.site = fc, x
+				sub.argVal = map[ssa.Value]ssa.Value{}
+			}
+			return fc.existsAtom(sub.ResultFormula(0, sub.Formula), x)
+		}
+	}
 	// a predicate handed to this function as a func literal and called here (walker(func(x T) bool {...})): when this
 	// function is analysed as part of the caller that wrote the literal, the call is the literal's body
 	if sc == nil && !c.IsInvoke() && isBoolType(x.Type()) && fc.depth < fc.A.MaxDepth+1 {
